@@ -18,7 +18,8 @@ assert t!=s, "mutation did not change the file"
 open(f,'w').write(t)
 PY
 go build ./... 
-mkdir -p $VERIF/mutants/$prop
-git diff > $VERIF/mutants/$prop/$name.diff
+DIR=${MUTDIR:-mutants}
+mkdir -p $VERIF/$DIR/$prop
+git diff > $VERIF/$DIR/$prop/$name.diff
 git checkout -q -- .
-echo "wrote mutants/$prop/$name.diff"
+echo "wrote $DIR/$prop/$name.diff"
